@@ -590,9 +590,30 @@ func (r *runner) run() bool {
 				for k := 0; k < 3; k++ {
 					s.TokenEvent("cid1", nil)
 					s.Reset([]string{"svc.>"}, nil)
+					s.TokenEventWithID("cid1", "tid1", map[string]int{"k": k})
+					s.TokenReset("svc.auth", "tid1")
 					runtime.Gosched()
 				}
 			})
+			// configuration setters are for a stopped service only (that is what makes the unlocked reads of the
+			// configuration fields safe): on a served service each of them must panic and change nothing
+			if sc.Seed%3 == 0 {
+				for name, f := range map[string]func(){
+					"SetLogger":             func() { s.SetLogger(nil) },
+					"SetQueryEventDuration": func() { s.SetQueryEventDuration(time.Second) },
+					"SetWorkerCount":        func() { s.SetWorkerCount(1) },
+					"SetInChannelSize":      func() { s.SetInChannelSize(1) },
+				} {
+					func() {
+						defer func() {
+							if recover() == nil && !c.isClosed() {
+								r.violation("setter-accepted: " + name + " on a served service did not panic")
+							}
+						}()
+						f()
+					}()
+				}
+			}
 			if sc.Shutdown == "during" {
 				time.Sleep(time.Duration(r.rng.Intn(400)) * time.Microsecond)
 				ok = r.shutdown(s)
